@@ -83,9 +83,13 @@ package commonmark
 //@    || (e >= a + 1 && s[e - 1] == '\r' && NoEOL(s, a, e - 1) && ((e < len(s) && s[e] != '\n') || (e == len(s) && eof)))
 //@    || (e == len(s) && eof && NoEOL(s, a, e)))
 
+//@ -- standing assumption (DESIGN 4.3): streams are shorter than 2^62 bytes and lines, so the parser's position
+//@ -- counters stay far below the integer range; assumed at every read of the two fields, never proved
+//@ fieldrange commonmark.BlockParser.lineno -4611686018427387904 4611686018427387904 streams shorter than 2^62 lines
+//@ fieldrange commonmark.BlockParser.offset -4611686018427387904 4611686018427387904 streams shorter than 2^62 bytes
+
 //@ func (*BlockParser).readline
 //@   requires !isnil(p) && 0 <= p.i && p.i <= len(p.buf) && (p.err == nil ==> p.r != nil)
-//@   requires 0 <= p.lineno && p.lineno <= 4611686018427387904
 //@   modifies p.buf, p.i, p.err, p.buf[len(p.buf):cap(p.buf)], alloc
 //@   ensures[idx] old(p.i) <= p.i && p.i <= len(p.buf)
 //@   ensures[result] result <==> old(p.i) < p.i
@@ -101,4 +105,103 @@ package commonmark
 //@   loop 0: invariant[latch] old(p.err) != nil ==> (p.err == old(p.err) && aliases(p.buf, old(p.buf)) && len(p.buf) == len(old(p.buf)) && bytesUnchanged())
 //@   loop 0: invariant[frame] framed()
 //@   unclaimed dec:0 termination needs a reader that does not return (0, nil) forever (io.Reader contract)
+//@   serves C01, C08, C04
+
+//@ func fillNulls
+//@   modifies b[0:len(b)]
+//@   loop 0: invariant[frame] framed()
+//@   serves C01, C04
+
+//@ -- adds n to every coordinate of the tree: writes span fields only
+//@ func offsetTree
+//@   modifies heap F:commonmark.Block.span.Start, heap F:commonmark.Block.span.End, heap F:commonmark.Inline.span.Start, heap F:commonmark.Inline.span.End, alloc
+//@   loop 0: invariant[stack] fresh(stack) && framed()
+//@   loop 1: invariant[stack] fresh(stack) && framed() && !isnil(block) && i < (len(block.blockChildren) > 0 ? len(block.blockChildren) : len(block.inlineChildren))
+//@   loop 1: decreases i + 1
+//@   loop 2: invariant[stack] fresh(stack) && framed() && !isnil(inline) && i < len(inline.children)
+//@   loop 2: decreases i + 1
+//@   nosafety range coordinates of a parsed tree are bounded by the buffer length (assumption A-NODEINV, C02)
+//@   unclaimed dec:0 termination of the traversal relies on the tree being finite and acyclic (DESIGN 4.3)
+//@   serves C04
+
+// ---------------------------------------------------------------------------
+// Cutting a closed top-level block off the buffer (C01).  n is the end of the
+// first document child.  Source is the first n bytes of the buffer (same
+// array); StartLine/StartOffset are the parser's counters before the cut;
+// EndOffset adds the unpadded length of those n bytes; the counters advance by
+// exactly that range.
+// ---------------------------------------------------------------------------
+
+//@ func (*BlockParser).makeRoot
+//@   requires !isnil(p) && 0 <= p.i && p.i <= len(p.buf)
+//@   requires[nonnil] forall k in [0, len(docChildren)): !isnil(docChildren[k])
+//@   requires[closed] (len(docChildren) > 0 && docChildren[0].span.End >= 0) ==> docChildren[0].span.End <= p.i
+//@   modifies p.offset, p.lineno, p.buf, p.i, p.blocks, p.buf[0:len(p.buf)], heap F:commonmark.Block.span.Start, heap F:commonmark.Block.span.End,
+//@       heap F:commonmark.Inline.span.Start, heap F:commonmark.Inline.span.End, alloc
+//@   ensures[nil] isnil(result) <==> (len(docChildren) == 0 || old(docChildren[0].span.End) < 0)
+//@   ensures[unchanged] isnil(result) ==> (p.offset == old(p.offset) && p.lineno == old(p.lineno) && p.i == old(p.i) && aliases(p.buf, old(p.buf)) && len(p.buf) == len(old(p.buf))
+//@       && aliases(p.blocks, old(p.blocks)) && len(p.blocks) == len(old(p.blocks)))
+//@   ensures[err] p.err == old(p.err) && p.r == old(p.r)
+//@   ensures[source] !isnil(result) ==> (aliases(result.Source, old(p.buf)) && len(result.Source) == old(docChildren[0].span.End) && cap(result.Source) == len(result.Source))
+//@   ensures[start] !isnil(result) ==> (result.StartLine == old(p.lineno) && result.StartOffset == old(p.offset))
+//@   ensures[end] !isnil(result) ==> result.EndOffset == old(p.offset) + len(result.Source) - (CountC(old(p.buf), 0, 0, len(result.Source)) / 3) * 2
+//@   ensures[advance] !isnil(result) ==> (p.offset == result.EndOffset && p.lineno == old(p.lineno) + LE(result.Source, 0, len(result.Source))
+//@       && sameArray(p.buf, old(p.buf)) && offsetOf(p.buf) == offsetOf(old(p.buf)) + len(result.Source) && len(p.buf) == len(old(p.buf)) - len(result.Source)
+//@       && p.i == old(p.i) - len(result.Source))
+//@   ensures[fresh] !isnil(result) ==> fresh(result)
+//@   loop 0: invariant[p] !isnil(p) && framed()
+//@   serves C01, C08, C04
+
+// ---------------------------------------------------------------------------
+// NextBlock (C01, C08).  Ghost gOff / gLines accumulate the unpadded length and
+// the number of line endings of every run of bytes cut off the front of the
+// buffer before the next block starts.  The bytes cut inside the blank-line
+// loop are blank (space, tab, CR, LF); the block handed out starts exactly
+// gOff bytes and gLines lines after the parser's previous position.  The block
+// structure code (line parser) is abstracted: it cannot write a BlockParser
+// field (structural check, "keeps").
+// ---------------------------------------------------------------------------
+
+//@ lemma LE_bounds(s []byte, a int, b int)
+//@   ensures 0 <= LE(s, a, b) && (a <= b ==> LE(s, a, b) <= b - a)
+//@   induction b from a
+//@   trigger LE(s, a, b)
+
+//@ lemma LE_noeol(s []byte, a int, b int)
+//@   requires forall k in [a, b): !IsEOL(s[k])
+//@   ensures LE(s, a, b) == 0
+//@   induction b from a
+
+//@ func (*BlockParser).NextBlock
+//@   requires !isnil(p) && 0 <= p.i && p.i <= len(p.buf) && (p.err == nil ==> p.r != nil)
+//@   requires 1 <= p.lineno && 0 <= p.offset
+//@   modifies everything
+//@   havoccall newLineParser, descendOpenBlocks, openNewBlocks, addLineText, (*lineParser).reset keeps BlockParser
+//@   ghost gOff = 0
+//@   ghost gLines = 0
+//@   site store buf#0: ghost gOff = gOff + p.i - (CountC(p.buf, 0, 0, p.i) / 3) * 2
+//@   site store buf#0: ghost gLines = gLines + LE(p.buf[0:p.i], 0, p.i)
+//@   site store buf#1: use LE_noeol(p.buf[0:p.i], 0, p.i - 2)
+//@   site store buf#1: use LE_noeol(p.buf[0:p.i], 0, p.i - 1)
+//@   site store buf#1: use LE_noeol(p.buf[0:p.i], 0, p.i)
+//@   site store buf#1: requires[oneline] LE(p.buf[0:p.i], 0, p.i) == 1 || (p.err != nil && p.i == len(p.buf))
+//@   site store buf#1: requires[blank] forall k in [0, p.i): IsSpaceTabEOL(p.buf[k])
+//@   site store buf#1: requires[cut] sameArray($new, p.buf) && offsetOf($new) == offsetOf(p.buf) + p.i && len($new) == len(p.buf) - p.i
+//@   site store buf#1: ghost gOff = gOff + p.i - (CountC(p.buf, 0, 0, p.i) / 3) * 2
+//@   site store buf#1: ghost gLines = gLines + LE(p.buf[0:p.i], 0, p.i)
+//@   ensures[error] isnil(result0) ==> (result1 != nil && result1 == p.err)
+//@   ensures[noerror] !isnil(result0) ==> result1 == nil
+//@   ensures[latch] old(p.err) != nil ==> p.err == old(p.err)
+//@   ensures[start] !isnil(result0) ==> (result0.StartOffset == old(p.offset) + gOff && result0.StartLine == old(p.lineno) + gLines && gOff >= 0 && gLines >= 0)
+//@   ensures[order] !isnil(result0) ==> (result0.EndOffset >= result0.StartOffset && p.offset == result0.EndOffset)
+//@   loop 0: invariant[p] !isnil(p) && p.i == 0 && (p.err == nil ==> p.r != nil) && 0 <= gOff && 0 <= gLines
+//@   loop 0: invariant[latch] old(p.err) != nil ==> p.err == old(p.err)
+//@   loop 0: invariant[offset] p.offset == old(p.offset) + gOff
+//@   loop 0: invariant[lineno] p.lineno == old(p.lineno) + gLines || (p.err != nil && len(p.buf) == 0)
+//@   loop 0: invariant[linenorange] p.lineno >= 1
+//@   loop 1: invariant[p] !isnil(p) && 0 <= p.i && p.i <= len(p.buf) && (p.err == nil ==> p.r != nil) && !isnil(lp)
+//@   loop 1: invariant[latch] old(p.err) != nil ==> p.err == old(p.err)
+//@   loop 1: invariant[acct] p.offset == old(p.offset) + gOff && p.lineno == old(p.lineno) + gLines && gOff >= 0 && gLines >= 0
+//@   unclaimed dec terminates when the reader reaches the end of the stream (needs a stream of finite length)
+//@   unclaimed pre@(*BlockParser).makeRoot the pending top-level blocks are non-nil and end inside the scanned part of the buffer (assumption A-C01-1, DESIGN 7.1)
 //@   serves C01, C08, C04
